@@ -69,14 +69,17 @@ def make_eigh_handler(eigen_equation=True, ascending=True, block=None, tag="S", 
     count = [0]
     registry = []      # (A, w, S, S1, B) with B = S1 A S computed the way the code does it
 
-    def fresh_S(n, t):
-        S = givens_orthogonal(n, t, signs=signs, block=block)
+    def fresh_S(n, t, planes=None):
+        S = givens_orthogonal(n, t, signs=signs, block=block, planes=planes)
         if unitary:
-            for i in range(n):
-                u = core.cplx("%s.u%d" % (t, i))
-                ENGINE.assume(u.re * u.re + u.im * u.im == 1,
-                              "eigh stub (Hermitian input): column phases |u|=1")
-                S[:, i] = S[:, i] * u
+            # complex Hermitian input: S = diag(1, v) G with |v| = 1
+            ENGINE.assumption_notes.append("eigh stub (Hermitian input): S = diag(1,v,..) G(c,s), |v|=1: all "
+                                           "Hermitian matrices; eigenvector phase convention: first component real") \
+                if not any("phase convention" in x for x in ENGINE.assumption_notes) else None
+            for i in range(1, n):
+                v = core.cplx("%s.v%d" % (t, i))
+                ENGINE.assume(v.re * v.re + v.im * v.im == 1)
+                S[i, :] = S[i, :] * v
             S1 = numpy.conj(S.T)
         else:
             S1 = S.T.copy()
@@ -184,13 +187,13 @@ def use_eigh(**kw):
     return npatch.EIGH_HANDLER[0]
 
 
-def spectral_symmetric(handler, n, block=None, tag="H", ascending=True):
+def spectral_symmetric(handler, n, block=None, tag="H", ascending=True, planes=None):
     """a real symmetric matrix GIVEN BY its eigen-decomposition: H = S diag(w) S^T with S
     any orthogonal matrix of the handler's family and w ascending.  By the spectral
     theorem every real symmetric matrix (with that block structure) is of this form, so
     quantifying over (S, w) quantifies over all H; the decomposition is registered with
     the eigh stub, which returns exactly (w, S) for H (no eigen-equation assumption needed)."""
-    S, S1 = handler.fresh_S(n, tag + ".S")
+    S, S1 = handler.fresh_S(n, tag + ".S", planes=planes)
     w = numpy.empty(n, dtype=object)
     for i in range(n):
         w[i] = core.real("%s.w%d" % (tag, i))
@@ -200,10 +203,11 @@ def spectral_symmetric(handler, n, block=None, tag="H", ascending=True):
         for a, b in zip(order[:-1], order[1:]):
             ENGINE.assume(w[a].re <= w[b].re, "spectral parametrisation: eigenvalues ascending")
     H = numpy.dot(S * w[None, :], S1)
-    # make H exactly symmetric term-wise (it is, mathematically: S diag(w) S^T)
+    # make H exactly Hermitian term-wise (it is, mathematically: S diag(w) S^+)
     for i in range(n):
+        H[i, i] = lift(H[i, i]).real
         for j in range(i + 1, n):
-            H[j, i] = H[i, j]
+            H[j, i] = lift(H[i, j]).conjugate()
     handler.register(H, w, S, S1)
     return H, w, S
 
